@@ -117,7 +117,7 @@ def py_line_end(content, o):
     return i if i != -1 else len(content)
 
 
-def impl_tfl_all(content, cons, offsets=None, order_seed=None, gz_members=0):
+def impl_tfl_all(content, cons, offsets=None, order_seed=None, gz_members=0, sub_horizon=None):
     """
     try_find_line at every offset on ONE real seeker object.  The lookups are made in an
     order chosen from `order_seed` (ascending, descending, shuffled, or ascending followed
@@ -172,7 +172,13 @@ def impl_tfl_all(content, cons, offsets=None, order_seed=None, gz_members=0):
         import gzip as _gzip2
         opener = (lambda: _gzip2.open(path, 'rb')) if gz_members else (lambda: open(path, 'rb'))
         with opener() as fd:
-            seeker = LogFileDateSinceSeeker(fd, c)
+            cls = LogFileDateSinceSeeker
+            if sub_horizon:
+                # a sub-class that sets another SEEK_HORIZON (the way the class invites tuning):
+                # whichever value the lookups then use, they must use ONE value consistently -
+                # every lookup still has to return the line containing the byte
+                cls = type('TunedSeeker', (LogFileDateSinceSeeker,), {'SEEK_HORIZON': sub_horizon})
+            seeker = cls(fd, c)
             for k in seq:
                 row = lookup(seeker, offs[k])
                 if rows[k] is None:
